@@ -16,7 +16,10 @@ def sh(cmd, cwd=None, timeout=1800):
 
 def main():
     prop, which = sys.argv[1], sys.argv[2]
-    checks = [prop]
+    related = {"C01": ["C01", "C02", "C03"], "C02": ["C02", "C04", "C01"], "C03": ["C03", "C02"], "C04": ["C04", "C02", "C16", "C05"], "C05": ["C05", "C16"],
+               "C06": ["C06", "C05"], "C07": ["C07", "C08", "C09"], "C08": ["C08", "C07", "C14"], "C09": ["C09", "C07"], "C10": ["C10", "C14"], "C11": ["C11", "C15"],
+               "C12": ["C12"], "C13": ["C13", "C14"], "C14": ["C14", "C13"], "C15": ["C15"], "C16": ["C16", "C04", "C05"], "C17": ["C17", "C18"], "C18": ["C18", "C14"], "C19": ["C19"]}
+    checks = related.get(prop, [prop])
     tier = "quick"
     for i, a in enumerate(sys.argv):
         if a == "--checks": checks = sys.argv[i+1].split(",")
@@ -31,8 +34,19 @@ def main():
         shutil.copy(f"{src}/{which}_demo_test.go", f"{dst}/demo_test.go")
         if os.path.exists(f"{src}/{which}.md"): shutil.copy(f"{src}/{which}.md", f"{dst}/notes.md")
     demo = open(f"{dst}/demo_test.go").read()
-    m = re.search(r"copy to:\s*([A-Za-z0-9_/.\-]+)", demo)
-    pkgdir = (m.group(1).strip("/") if m else "").rstrip(".")
+    head = "\n".join(demo.splitlines()[:25])
+    known = ["efivarfs/fswrapper", "efivarfs/testfs", "efi/signature", "efi/attributes", "efi/device", "efi/util", "efi/attr", "efi/fs", "authenticode", "pkcs7", "efivarfs", "efivar", "efi"]
+    pkgdir = ""
+    for k in known:
+        if re.search(r"(?<![A-Za-z0-9_/])" + re.escape(k) + r"/?(?![A-Za-z0-9_])", head.split("package ")[0]):
+            pkgdir = k
+            break
+    if not pkgdir:
+        pm = re.search(r"^package\s+(\w+)", demo, re.M)
+        byname = {"authenticode": "authenticode", "pkcs7": "pkcs7", "signature": "efi/signature", "util": "efi/util", "device": "efi/device",
+                  "efivarfs": "efivarfs", "efivarfs_test": "efivarfs", "efivar": "efivar", "attributes": "efi/attributes", "efi": "efi",
+                  "testfs": "efivarfs/testfs", "fswrapper": "efivarfs/fswrapper"}
+        pkgdir = byname.get(pm.group(1) if pm else "", "")
     meta = {"property": prop, "variant": which, "demo_package_dir": pkgdir}
     scratch = f"/tmp/vp-scratch-eval-{prop}-{which}"
     sh(f"git -C /repo worktree remove --force {scratch}")
@@ -43,8 +57,8 @@ def main():
         if rc != 0:
             meta["error"] = out[-500:]
             return finish(dst, meta)
-        rc, out = sh("go build ./... && go test -vet=off -count=1 ./... 2>&1 | tail -30", cwd=scratch)
-        meta["suite_passes_with_change"] = rc == 0 and "FAIL" not in out
+        rc, out = sh(f"go build ./... && REPO_DIR={scratch} /verif/tools/repo_tests.sh", cwd=scratch)
+        meta["suite_passes_with_change"] = rc == 0 and "baseline=56 passed=56 failed=0" in out
         meta["suite_tail"] = out[-600:]
         env_line = re.search(r"(TZ=[A-Za-z_/+\-0-9]+)", demo)
         envp = (env_line.group(1) + " ") if env_line else ""
